@@ -50,7 +50,7 @@ func IDs() []string {
 
 // fn resolves an anchor function; a missing anchor is reported as undecided under the rule.
 func (c *Ctx) fn(rule, rel, recv, name string) *ssa.Function {
-	f := c.P.Func(rel, recv, name)
+	f := c.find(rel, recv, name)
 	if f == nil {
 		full := rel + "." + name
 		if recv != "" {
@@ -314,10 +314,10 @@ func pathExpr(v ssa.Value) string {
 		return x.Op.String() + pathExpr(x.X)
 	case *ssa.FieldAddr:
 		st := deref(x.X.Type()).Underlying().(*types.Struct)
-		return "&" + strings.TrimPrefix(pathExpr(x.X), "&") + "." + st.Field(x.Field).Name()
+		return "&" + strings.TrimPrefix(pathExpr(x.X), "&") + "." + core.FieldName(st.Field(x.Field))
 	case *ssa.Field:
 		st := x.X.Type().Underlying().(*types.Struct)
-		return pathExpr(x.X) + "." + st.Field(x.Field).Name()
+		return pathExpr(x.X) + "." + core.FieldName(st.Field(x.Field))
 	case *ssa.IndexAddr:
 		return "&" + strings.TrimPrefix(pathExpr(x.X), "&") + "[" + pathExpr(x.Index) + "]"
 	case *ssa.Index:
@@ -446,8 +446,8 @@ func paramName(x *ssa.Parameter) string {
 		if pt, ok := t.(*types.Pointer); ok {
 			t = pt.Elem()
 		}
-		if n, ok := t.(*types.Named); ok && n.Obj().Name() != "" {
-			return strings.ToLower(n.Obj().Name()[:1])
+		if n, ok := t.(*types.Named); ok && core.ObjName(n.Obj()) != "" {
+			return strings.ToLower(core.ObjName(n.Obj())[:1])
 		}
 	}
 	return x.Name()
